@@ -4,7 +4,7 @@ import sys
 import tempfile
 
 os.environ.setdefault("XDG_CACHE_HOME", tempfile.mkdtemp(prefix="c19_xdg_"))
-sys.path.insert(0, os.environ.get("PYMOCA_SRC", "/tmp/hunt_C19/src"))
+sys.path.insert(0, os.environ.get("PYMOCA_SRC", "/repo/src"))
 
 import logging  # noqa: E402
 
